@@ -952,6 +952,7 @@ class TupleOf(DataType):
 
     def import_value(self, value):
         """returns a python object from serialisation"""
+        self.check_type(value)
         return tuple(sub.import_value(elem) for sub, elem in zip(self.members, value))
 
     def format_value(self, value, unit=True):
